@@ -329,3 +329,4 @@ def check(ctx):
     # placement = hash % *stored* table size
     import_rules(ctx, "c07", {"stored-count-wins"})
     import_rules(ctx, "c05", {"bucket-index"})
+    import_rules(ctx, "c06", {"class-slot"})
